@@ -63,6 +63,7 @@ def ser(node, data):
         data["name"] = d.name
         data["extra"] = d.extra
         data["guid"] = d.guid
+        data["kind"] = "obj"  # an ordinary user key: a plain tree has no kinds
         if isinstance(d, HObj):
             data["hobj"] = True
         if isinstance(d, FalsyObj):
@@ -147,7 +148,7 @@ def build(case):
             labs = list(range(n))
         nodes = gen.build(t, f, lambda i: pool[labs[i]])
         return t, nodes
-    t = Tree("t")
+    t = gen.ext_classes()["XTree"]("t") if case.get("ext") else Tree("t")
     if fl in ("str", "emptied", "dupdoc"):
         labs = gen.clone_labeling(rng, f, ["a", "b", "c", "d"]) or [f"n{i}" for i in range(n)]
         nodes = gen.build(t, f, lambda i: labs[i])
@@ -226,6 +227,16 @@ def run_case(case, res):
 
     t, nodes = build(case)
     fl = case["flavour"]
+    if case.get("prelude") and fl not in ("emptied", "dupdoc"):
+        # a history first (inserts at positions, moves, sorts): child order then differs from creation order
+        nodes = gen.history_prelude(t, nodes, rng_for(case["seed"], "c14-prelude", case["f"]), False)
+        try:
+            keys = {}
+            prng = rng_for(case["seed"], "c14-sort", case["f"])
+            t.sort(key=lambda x: keys.setdefault(id(x), prng.random()))
+            nodes = list(t)
+        except Exception:
+            pass
     n = len(nodes)
     ids = [x.data_id for x in nodes]
     res.case(case, nontrivial=n >= 4 and (len(set(ids)) < n or fl in ("ids", "obj", "objdefault")))
@@ -394,6 +405,11 @@ def run_shard(spec, res):
                 for fl in FLAVOURS:
                     for style in ((0, 1, 2, 3) if fl in ("obj", "objdefault") else (0,)):
                         run_case({"f": gen.code(f), "flavour": fl, "seed": seed, "style": style}, res)
+                        if n >= 3 and (k + style) % 2 == 0:
+                            run_case({"f": gen.code(f), "flavour": fl, "seed": seed, "style": style, "prelude": True,
+                                      "ext": fl in ("str", "unicode", "ids") and k % 4 == 0}, res)
+                    if fl in ("str", "unicode", "ids") and n >= 2 and k % 2:
+                        run_case({"f": gen.code(f), "flavour": fl, "seed": seed, "style": 0, "ext": True}, res)
                 if res.expired():
                     res.count("exhaustive_cut")
                     res.inconc("enumeration cut by time budget")
@@ -402,6 +418,7 @@ def run_shard(spec, res):
         rng = rng_for(seed, "c14-rand", spec["i"])
         for j in range(spec["count"]):
             f = gen.random_forest(rng, rng.randint(6, 30))
-            run_case({"f": gen.code(f), "flavour": rng.choice(FLAVOURS), "seed": rng.randrange(10**6), "style": rng.randrange(4)}, res)
+            run_case({"f": gen.code(f), "flavour": rng.choice(FLAVOURS), "seed": rng.randrange(10**6), "style": rng.randrange(4),
+                      "prelude": rng.random() < 0.5, "ext": rng.random() < 0.3}, res)
             if res.expired():
                 break
